@@ -149,8 +149,10 @@ class LogPhaseStream(c09.PhysicsStream):
                 S.append(M)
             idx = list(range(n))
             rng.shuffle(idx)
-            out.append({"n": n, "S": S, "idx": idx, "p": rng.randrange(n), "q": rng.randrange(n),
-                        "by_pin": rng.random() < 0.5})
+            p, q = rng.randrange(n), rng.randrange(n)
+            if rng.random() < 0.3:          # a dark pin pair at one sweep point: T = 0, dB = -inf
+                S[rng.randrange(ns)][p][q] = [0.0, 0.0]
+            out.append({"n": n, "S": S, "idx": idx, "p": p, "q": q, "by_pin": rng.random() < 0.5})
         return out
 
     def observe(self, d):
